@@ -523,6 +523,60 @@ func (s *Session[K]) RunStaleLaneWalk(r *rng.R) {
 	}
 }
 
+// RunFan2: two wide nodes stacked on the leftmost or rightmost path (and elsewhere):
+// a subset of an upper family on one side of the anchor branch, plus a subset of a lower
+// family under the anchor branch; all monitors after every few operations.
+func (s *Session[K]) RunFan2(r *rng.R) {
+	upper, anchor, lower := s.K.Fan2(r)
+	if len(upper) < 100 || len(lower) < 100 {
+		return
+	}
+	s.every = 1
+	// the anchor branch is the smallest present upper branch, the largest, or somewhere inside
+	var us []K
+	switch r.Intn(3) {
+	case 0:
+		us = append(us, upper[anchor:]...)
+	case 1:
+		us = append(us, upper[:anchor+1]...)
+	default:
+		us = append(us, upper...)
+	}
+	rng.Shuffle(r, us)
+	ls := append([]K{}, lower...)
+	rng.Shuffle(r, ls)
+	nu := min(len(us), 50+r.Intn(60))
+	nl := min(len(ls), 50+r.Intn(150))
+	us, ls = us[:nu], ls[:nl]
+	if s.Res.WantSample() {
+		s.Res.Sample(map[string]any{"unit": s.Unit, "kind": s.K.Name, "upper_members": nu, "lower_members": nl, "anchor": s.K.Show(upper[anchor])})
+	}
+	all := append(append([]K{}, us...), ls...)
+	rng.Shuffle(r, all)
+	for i, k := range all {
+		s.Insert(k)
+		if s.Dead {
+			return
+		}
+		if i%9 == 0 || i > len(all)-6 {
+			s.After(r)
+			if s.Dead {
+				return
+			}
+		}
+	}
+	// thin both levels a little, then look again
+	for i := 0; i < 30 && !s.Dead; i++ {
+		s.Delete(rng.Pick(r, all))
+		if !s.Dead && i%5 == 0 {
+			s.After(r)
+		}
+	}
+	if !s.Dead {
+		s.Final(r, all)
+	}
+}
+
 // RunSweep: directed threshold walk over one fan-out family.
 func (s *Session[K]) RunSweep(r *rng.R) {
 	fam := s.K.Fan(r)
